@@ -22,13 +22,15 @@ def encoders():
 
 
 def run(ctx, replay_jobs=None):
+    C.build_scratch(ctx, exts=("heap", "mic", "ipc"))
     hist.run_history_check(
         ctx, "C08", ("C08",), encoders(), TRUSTED, ASSUME,
         "Props/C08.v re-checked; traced runs replayed through Model/Stale.v in Coq (sleg_ok: not stale at commit, "
         "survivors undisturbed after every commit); oracle: at every commit of an interaction / cell-veto handler "
         "each unit of the in-state its candidate was computed from has the same velocity and lies on the same line in "
         "the global state (exact rationals)",
-        replay_jobs=replay_jobs, static_obligations=wiring.static_obligations, coq_legs=ctx.n(60, 300))
+        jobs=None if replay_jobs else hist.standard_jobs(ctx) + [hist.deactivated_untrashed_job()],
+        replay_jobs=replay_jobs, static_obligations=wiring.static_obligations, coq_legs=ctx.n(60, 300), prebuilt=True)
 
 
 def replay(ctx, path):
